@@ -337,7 +337,7 @@ pub fn main(mode: Mode) {
                 }
             }
             let workers = vkit::workers_for(tier);
-            let outcome = vkit::run_prop(prop, workers, tier.pick(2_000, 400_000), strategy, |c: &Case| check_case(c, &stats, &known));
+            let outcome = vkit::run_prop(prop, workers, tier.pick(40_000, 2_000_000), strategy, |c: &Case| check_case(c, &stats, &known));
             let outcome = match outcome {
                 Outcome::Held if stats.distinct_nontrivial() < 2 => Outcome::Inconclusive("generator produced no non-trivial case".into()),
                 o => o,
